@@ -3,9 +3,9 @@ package props
 // C09 — the execution head advances only by valid child blocks; engine faults commit nothing.
 
 import (
-	bitcointypes "github.com/goatnetwork/goat/x/bitcoin/types"
 	"bytes"
 	"fmt"
+	bitcointypes "github.com/goatnetwork/goat/x/bitcoin/types"
 	"math/big"
 	"testing"
 	"time"
